@@ -60,6 +60,10 @@ class _Parameters(NamedTuple):
     g1_stereo_changes: Mapping[AtomId, Mapping[Change, list[Stereo]]]
     g2_stereo_changes: Mapping[AtomId, Mapping[Change, list[Stereo]]]
 
+    # bond: reaction role (only bonds that have one)
+    g1_bond_roles: Mapping[frozenset[AtomId], Hashable]
+    g2_bond_roles: Mapping[frozenset[AtomId], Hashable]
+
 
 class _State(NamedTuple):
     """
@@ -257,6 +261,17 @@ def _sanity_check_and_init(
     g1_degree = {a: len(n_set) for a, n_set in g1_nbrhd.items()}
     g2_degree = {a: len(n_set) for a, n_set in g2_nbrhd.items()}
 
+    g1_bond_roles = {
+        bond: attrs["reaction"]
+        for bond, attrs in g1.bonds_with_attributes.items()
+        if "reaction" in attrs
+    }
+    g2_bond_roles = {
+        bond: attrs["reaction"]
+        for bond, attrs in g2.bonds_with_attributes.items()
+        if "reaction" in attrs
+    }
+
     params = _Parameters(
         g1_nbrhd,
         g2_nbrhd,
@@ -270,6 +285,8 @@ def _sanity_check_and_init(
         g2_stereo,
         g1_stereo_changes,
         g2_stereo_changes,
+        g1_bond_roles,
+        g2_bond_roles,
     )
 
     state = _State({}, {}, set(), set(g1_nbrhd), set(), set(g2_nbrhd))
@@ -330,6 +347,8 @@ def vf2pp_all_isomorphisms(
             
     elif not subgraph:
         feasibility_funcs.append(_graph_feasibility)
+        if params.g1_bond_roles or params.g2_bond_roles:
+            feasibility_funcs.append(_bond_role_feasibility)
         if stereo:
             feasibility_funcs.append(_stereo_feasibility)
         if stereo_change:
@@ -437,6 +456,21 @@ def _graph_feasibility(
     if t1_tilde_labels != t2_tilde_labels:
         return False
 
+    return True
+
+def _bond_role_feasibility(
+    u: AtomId, v: AtomId, state: _State, params: _Parameters
+) -> bool:
+    """The bonds between u and its already mapped neighbors must have the
+    same reaction role (formed, broken, fleeting or none) as their images."""
+    g1_roles, g2_roles = params.g1_bond_roles, params.g2_bond_roles
+    mapping = state.mapping
+    for n in params.g1_nbrhd[u]:
+        if n in mapping and n != u:
+            role1 = g1_roles.get(frozenset((u, n)))
+            role2 = g2_roles.get(frozenset((v, mapping[n])))
+            if role1 != role2:
+                return False
     return True
 
 def _subgraph_feasibility(
